@@ -112,6 +112,8 @@ TEXT_CASES = {
     ("C15", "lambda-break-in-loop", "de28c2e"): "while true { let f = || { break; }; break; }",
     ("C15", "call-with-254-args", "48393ed"): "fn f(" + ", ".join("p%d" % i for i in range(254)) + ") { return p0; }\nprint(f(" + ", ".join("1" for _ in range(254)) + "));",
     ("C15", "jump-targets-70000", "7d5b0d8"): "let x = 0;\n" + "if x == 1 { x = 2; } " * 70000 + "\nprint(x);",
+    ("C15", "file-starts-with-slash-x-slash", "54300ca"): "/x/ not a program (((\nprint(\"second line\");",
+    ("C15", "file-starts-with-slash-blank-slash", "54300ca"): "/ /\nprint(\"second line\");",
     ("C15", "locals-255-plus-drop", "b00da9f"): "fn f() {\nif true {\n" + "".join("let a%d = %d;\n" % (i, i) for i in range(255)) + "1;\n}\nreturn 7;\n}\nprint(f());",
 }
 
